@@ -22,7 +22,7 @@ def run(prop, tier, seed, t0, replay):
     with ThreadPoolExecutor(nw) as ex:
         outs = list(ex.map(work, range(nw)))
     names = ["cases", "violations", "fields_compared", "method_rounds", "containers_compared", "clones_compared",
-             "constants_compared", "one_hot_cases"]
+             "constants_compared", "one_hot_cases", "run_overload_calls"]
     obs = {n: 0 for n in names}
     for rc, out, err in outs:
         if rc == 124:
@@ -53,7 +53,7 @@ def run(prop, tier, seed, t0, replay):
             "C one (the real C library is linked with renamed API functions so its constants are the real ones); reproc_destroy counted "
             "per process object incl. moves. Each case draws fresh random values: distinct_nontrivial = cases")
     mo = {"cases": 4000, "fields_compared": 200000, "method_rounds": 1000, "clones_compared": 4000, "constants_compared": 26,
-          "one_hot_cases": 1000}
+          "one_hot_cases": 1000, "run_overload_calls": 3000}
     return core.conclude(prop, tier, seed, "exploration", total, viols, t0, rule, min_obs=None if replay else mo,
                          assumptions=["the fake C API stands in for the C library: what reaches it is what the C layer would receive",
                                       "error_code equivalence is checked through value() and comparison with the std::errc constants"])
